@@ -445,6 +445,31 @@ theorem c04_unguarded_debt_division_raises_witness :
     console and that the translator reads `print(...)` as a no-op. -/
 theorem c04_console_is_best_effort_table : Gen.Metabolism.consoleFailuresEscape = false := by decide
 
+/-- the public view of a store, as `Operon.Gen.Metabolism.constructorProbe` records it -/
+private def stateName : MState → String
+  | .normal => "normal" | .conserving => "conserving" | .starving => "starving" | .feasting => "feasting" | .dormant => "dormant"
+
+private def probeAgrees (r : (Nat × Nat × Nat × Nat) × (Nat × Nat × Nat × Nat × Nat × Nat × Nat × Nat) × String ×
+    (Nat × Nat × Nat × Nat × Nat)) : Bool :=
+  let s := Store.fresh r.1.1 r.1.2.1 r.1.2.2.1 r.1.2.2.2 1 10
+  let v := r.2.1
+  let c := r.2.2.2
+  s.atp == (v.1 : Int) && s.gtp == (v.2.1 : Int) && s.nadh == (v.2.2.1 : Int) && s.maxAtp == (v.2.2.2.1 : Int)
+    && s.maxGtp == (v.2.2.2.2.1 : Int) && s.maxNadh == (v.2.2.2.2.2.1 : Int) && s.debt == (v.2.2.2.2.2.2.1 : Int)
+    && s.maxDebt == (v.2.2.2.2.2.2.2 : Int) && stateName s.state == r.2.2.1
+    && s.consumed == (c.1 : Int) && s.regenerated == (c.2.1 : Int) && s.ops == c.2.2.1 && s.failed == c.2.2.2.1
+    && s.ntx == c.2.2.2.2
+
+/-- **The constructor is `Store.fresh`**: evaluated on the real class on every run - for every combination of budget, GTP
+    budget, NADH reserve and debt limit from {0, 1, 7} (81 stores, zero capacities included) what the public getters report
+    right after construction (balances, capacities = the budgets, debt 0, the limit, state NORMAL without an `_update_state`,
+    all counters 0, an empty transaction log) is the model's fresh store.  A finite evaluation (the general statement rests on
+    the correspondence); it is what ties the one operation the translator does not read - `__init__` - to the model by name. -/
+theorem c04_constructor_table_agrees_with_model :
+    (match Gen.Metabolism.constructorProbe with
+     | some t => t.length == 81 && t.all probeAgrees
+     | none => false) = true := by decide
+
 /-- **Quantities beyond the float range cannot interrupt an operation** (Python ints are unbounded, the fill level of
     `_update_state` and the interest of `apply_debt_interest` are float computations): evaluated on the real class on every
     run — stores with a budget / NADH reserve / debt limit of 10^310, quotients debt/capacity and current/capacity beyond
